@@ -4,6 +4,7 @@ import (
 	"go/ast"
 	"go/constant"
 	"go/types"
+	"regexp"
 	"strings"
 
 	"golang.org/x/tools/go/packages"
@@ -160,9 +161,16 @@ func checkDirtyGate(c *Ctx, p *Prog, fn *ssa.Function, rule string, isEmit func(
 	}
 }
 
+var regSuffix = regexp.MustCompile(`@t[0-9]+`)
+
 func emitName(in ssa.Instruction) string {
 	cc := callCommon(in)
 	if cc == nil {
+		if st, ok := in.(*ssa.Store); ok {
+			if ref, _, ok := fieldAddrRef(st.Addr); ok {
+				return "store(" + ref.Name + ")"
+			}
+		}
 		return "?"
 	}
 	n := calleeName(cc)
@@ -176,7 +184,7 @@ func emitName(in ssa.Instruction) string {
 		}
 		n += "(" + a + ")"
 	}
-	return n
+	return regSuffix.ReplaceAllString(n, "")
 }
 
 // ---- T1 helpers: constant tables from the typed AST ---------------------
